@@ -122,4 +122,268 @@ example : readAll readLine 7 [97, 10, 10, 98, 99] = [[97, 10], [10], [98, 99]] :
 -- stripped reads: maximal runs outside the set { space, comma }; the last run needs no trailing delimiter
 example : readAll (readStrip [32, 44]) 12 [32, 97, 98, 44, 32, 0xC3, 0xA4, 44, 99] = [[97, 98], [0xC3, 0xA4], [99]] := by decide
 
+/-! ## gp_file_read_strip over files made of whole code points -/
+
+/-- a chunk is one code point as the reader sees it: a lead byte and as many bytes as the length table says -/
+def ValidChunk (c : Bytes) : Prop := ∃ b t, c = b :: t ∧ Gpc.Utf8.cpLen b = c.length
+
+theorem readCp_chunk (c rest : Bytes) (h : ValidChunk c) : readCp (c ++ rest) = some (c, c, rest) := by
+  obtain ⟨b, t, rfl, hl⟩ := h
+  simp only [List.length_cons] at hl
+  simp only [List.cons_append, readCp, hl]
+  have h1 : ¬ (t ++ rest).length + 1 < t.length + 1 := by simp [List.length_append]
+  rw [if_neg h1]
+  simp [List.take_of_length_le]
+
+/-- skip: the first chunk outside the set and what follows it -/
+def skipC (set : Bytes) : List Bytes → Option (Bytes × List Bytes)
+  | [] => none
+  | c :: r => if inSet set c then skipC set r else some (c, r)
+
+/-- collect until a member (consumed) or the end -/
+def collectC (set : Bytes) : Bytes → List Bytes → Bytes × List Bytes
+  | acc, [] => (acc, [])
+  | acc, c :: r => if inSet set c then (acc, r) else collectC set (acc ++ c) r
+
+def stripC (set : Bytes) (chunks : List Bytes) : Option (Bytes × List Bytes) :=
+  (skipC set chunks).map fun (c, r) => collectC set c r
+
+theorem stripSkip_chunks (set : Bytes) (chunks : List Bytes) (hv : ∀ c ∈ chunks, ValidChunk c) (fuel : Nat)
+    (hf : chunks.length < fuel) :
+    stripSkip set fuel chunks.flatten = (skipC set chunks).map fun (c, r) => (c, r.flatten) := by
+  induction chunks generalizing fuel with
+  | nil => cases fuel <;> simp [stripSkip, readCp, skipC]
+  | cons c r ih =>
+    cases fuel with
+    | zero => simp at hf
+    | succ f =>
+      simp only [List.flatten_cons, stripSkip, readCp_chunk c r.flatten (hv c (by simp)), skipC]
+      by_cases hin : inSet set c
+      · simp only [hin, if_true]
+        exact ih (fun x hx => hv x (by simp [hx])) f (by simp at hf; omega)
+      · simp [hin]
+
+theorem stripCollect_chunks (set : Bytes) (chunks : List Bytes) (hv : ∀ c ∈ chunks, ValidChunk c) (acc : Bytes) (fuel : Nat)
+    (hf : chunks.length < fuel) :
+    stripCollect set fuel acc chunks.flatten = ((collectC set acc chunks).1, (collectC set acc chunks).2.flatten) := by
+  induction chunks generalizing fuel acc with
+  | nil => cases fuel <;> simp [stripCollect, readCp, collectC]
+  | cons c r ih =>
+    cases fuel with
+    | zero => simp at hf
+    | succ f =>
+      simp only [List.flatten_cons, stripCollect, readCp_chunk c r.flatten (hv c (by simp)), collectC]
+      by_cases hin : inSet set c
+      · simp [hin]
+      · simp only [hin, Bool.false_eq_true, if_false]
+        exact ih (fun x hx => hv x (by simp [hx])) (acc ++ c) f (by simp at hf; omega)
+
+theorem chunk_length_pos (c : Bytes) (h : ValidChunk c) : 0 < c.length := by
+  obtain ⟨b, t, rfl, _⟩ := h; simp
+
+theorem flatten_length_ge (chunks : List Bytes) (hv : ∀ c ∈ chunks, ValidChunk c) : chunks.length ≤ chunks.flatten.length := by
+  induction chunks with
+  | nil => simp
+  | cons c r ih =>
+    have := chunk_length_pos c (hv c (by simp))
+    have := ih (fun x hx => hv x (by simp [hx]))
+    simp only [List.flatten_cons, List.length_append, List.length_cons]; omega
+
+theorem skipC_suffix (set : Bytes) (chunks : List Bytes) (c : Bytes) (r : List Bytes) (h : skipC set chunks = some (c, r)) :
+    r.length < chunks.length ∧ ∀ x ∈ r, x ∈ chunks := by
+  induction chunks with
+  | nil => simp [skipC] at h
+  | cons d t ih =>
+    simp only [skipC] at h
+    by_cases hin : inSet set d
+    · simp only [hin, if_true] at h
+      obtain ⟨h1, h2⟩ := ih h
+      exact ⟨by simp; omega, fun x hx => by simp [h2 x hx]⟩
+    · simp only [hin, Bool.false_eq_true, if_false, Option.some.injEq, Prod.mk.injEq] at h
+      obtain ⟨rfl, rfl⟩ := h
+      exact ⟨by simp, fun x hx => by simp [hx]⟩
+
+/-- on a file of whole code points the byte-level reader is the chunk-level one -/
+theorem readStrip_chunks (set : Bytes) (chunks : List Bytes) (hv : ∀ c ∈ chunks, ValidChunk c) :
+    readStrip set chunks.flatten = (stripC set chunks).map fun (seg, r) => (seg, r.flatten) := by
+  unfold readStrip stripC
+  have hlen := flatten_length_ge chunks hv
+  rw [stripSkip_chunks set chunks hv _ (by omega)]
+  cases hs : skipC set chunks with
+  | none => simp
+  | some p =>
+    obtain ⟨c, r⟩ := p
+    obtain ⟨hl, hm⟩ := skipC_suffix set chunks c r hs
+    have hv' : ∀ x ∈ r, ValidChunk x := fun x hx => hv x (hm x hx)
+    have := flatten_length_ge r hv'
+    simp only [Option.map_some]
+    rw [stripCollect_chunks set r hv' c _ (by omega)]
+
+/-! ### what the segments are: the maximal runs of code points outside the set -/
+
+/-- maximal runs of non-members, each run flattened -/
+def runs (set : Bytes) : Bytes → List Bytes → List Bytes
+  | cur, [] => if cur.isEmpty then [] else [cur]
+  | cur, c :: r =>
+    if inSet set c then (if cur.isEmpty then runs set [] r else cur :: runs set [] r)
+    else runs set (cur ++ c) r
+
+theorem collectC_suffix (set : Bytes) (acc : Bytes) (chunks : List Bytes) :
+    (collectC set acc chunks).2.length ≤ chunks.length ∧ ∀ x ∈ (collectC set acc chunks).2, x ∈ chunks := by
+  induction chunks generalizing acc with
+  | nil => simp [collectC]
+  | cons c r ih =>
+    simp only [collectC]
+    by_cases hin : inSet set c
+    · simp only [hin, if_true]; exact ⟨by simp, fun x hx => by simp [hx]⟩
+    · simp only [hin, Bool.false_eq_true, if_false]
+      obtain ⟨h1, h2⟩ := ih (acc ++ c)
+      exact ⟨by simp; omega, fun x hx => by simp [h2 x hx]⟩
+
+/-- reading piecewise at chunk level -/
+def readAllC (set : Bytes) : Nat → List Bytes → List Bytes
+  | 0, _ => []
+  | fuel + 1, chunks =>
+    match stripC set chunks with
+    | none => []
+    | some (seg, r) => seg :: readAllC set fuel r
+
+theorem runs_skip_none (set : Bytes) (chunks : List Bytes) (h : skipC set chunks = none) : runs set [] chunks = [] := by
+  induction chunks with
+  | nil => simp [runs]
+  | cons c r ih =>
+    simp only [skipC] at h
+    by_cases hin : inSet set c
+    · simp only [hin, if_true] at h; simp [runs, hin, ih h]
+    · simp [hin] at h
+
+theorem runs_skip_some (set : Bytes) (chunks : List Bytes) (c : Bytes) (r : List Bytes) (h : skipC set chunks = some (c, r)) :
+    runs set [] chunks = runs set c r := by
+  induction chunks with
+  | nil => simp [skipC] at h
+  | cons d t ih =>
+    simp only [skipC] at h
+    by_cases hin : inSet set d
+    · simp only [hin, if_true] at h; simp [runs, hin, ih h]
+    · simp only [hin, Bool.false_eq_true, if_false, Option.some.injEq, Prod.mk.injEq] at h
+      obtain ⟨rfl, rfl⟩ := h
+      simp [runs, hin]
+
+theorem runs_collect (set : Bytes) (chunks : List Bytes) (cur : Bytes) (hcur : cur ≠ []) :
+    runs set cur chunks = (collectC set cur chunks).1 :: runs set [] (collectC set cur chunks).2 := by
+  induction chunks generalizing cur with
+  | nil => simp [runs, collectC, hcur]
+  | cons d t ih =>
+    by_cases hin : inSet set d
+    · simp [runs, collectC, hin, hcur]
+    · simp only [runs, collectC, hin, Bool.false_eq_true, if_false]
+      exact ih (cur ++ d) (by simp [hcur])
+
+theorem readAllC_runs (set : Bytes) (fuel : Nat) (chunks : List Bytes) (hne : ∀ c ∈ chunks, c ≠ []) (hf : chunks.length < fuel) :
+    readAllC set fuel chunks = runs set [] chunks := by
+  induction fuel generalizing chunks with
+  | zero => omega
+  | succ f ih =>
+    simp only [readAllC, stripC]
+    cases hs : skipC set chunks with
+    | none => simp [runs_skip_none set chunks hs]
+    | some p =>
+      obtain ⟨c, r⟩ := p
+      obtain ⟨hl, hm⟩ := skipC_suffix set chunks c r hs
+      obtain ⟨hl2, hm2⟩ := collectC_suffix set c r
+      have hc : c ≠ [] := by
+        -- c is one of the chunks
+        have : c ∈ chunks := by
+          clear hl hm hl2 hm2 ih hf
+          induction chunks with
+          | nil => simp [skipC] at hs
+          | cons d t ih2 =>
+            simp only [skipC] at hs
+            by_cases hin : inSet set d
+            · simp only [hin, if_true] at hs
+              exact List.mem_cons_of_mem _ (ih2 (fun x hx => hne x (by simp [hx])) hs)
+            · simp only [hin, Bool.false_eq_true, if_false, Option.some.injEq, Prod.mk.injEq] at hs
+              simp [hs.1]
+        exact hne c this
+      simp only [Option.map_some]
+      rw [runs_skip_some set chunks c r hs, runs_collect set r c hc]
+      congr 1
+      exact ih _ (fun x hx => hne x (hm x (hm2 x hx))) (by omega)
+
+theorem readAll_chunks (set : Bytes) (fuel : Nat) (chunks : List Bytes) (hv : ∀ c ∈ chunks, ValidChunk c) :
+    readAll (readStrip set) fuel chunks.flatten = readAllC set fuel chunks := by
+  induction fuel generalizing chunks with
+  | zero => rfl
+  | succ f ih =>
+    simp only [readAll, readAllC, readStrip_chunks set chunks hv]
+    cases hs : stripC set chunks with
+    | none => simp
+    | some p =>
+      obtain ⟨seg, r⟩ := p
+      simp only [Option.map_some]
+      congr 1
+      apply ih
+      -- the rest consists of chunks of the original list
+      intro x hx
+      unfold stripC at hs
+      cases hk : skipC set chunks with
+      | none => simp [hk] at hs
+      | some q =>
+        obtain ⟨c, r0⟩ := q
+        simp only [hk, Option.map_some, Option.some.injEq] at hs
+        obtain ⟨_, hm⟩ := skipC_suffix set chunks c r0 hk
+        obtain ⟨_, hm2⟩ := collectC_suffix set c r0
+        have hr : r = (collectC set c r0).2 := by rw [hs]
+        rw [hr] at hx
+        exact hv x (hm x (hm2 x hx))
+
+/-- **C16 (strip).** On a file made of whole code points, reading it piece by piece with `gp_file_read_strip` yields
+exactly the maximal runs of code points outside the set, in order, until end of data. -/
+theorem strip_all (set : Bytes) (chunks : List Bytes) (hv : ∀ c ∈ chunks, ValidChunk c) :
+    readAll (readStrip set) (chunks.flatten.length + 1) chunks.flatten = runs set [] chunks := by
+  rw [readAll_chunks set _ chunks hv]
+  exact readAllC_runs set _ chunks (fun c hc => by have := chunk_length_pos c (hv c hc); intro e; simp [e] at this)
+    (by have := flatten_length_ge chunks hv; omega)
+
+/-- the runs keep every code point outside the set, in order, and nothing else -/
+theorem runs_flatten (set : Bytes) (chunks : List Bytes) (cur : Bytes) :
+    (runs set cur chunks).flatten = cur ++ (chunks.filter fun c => !inSet set c).flatten := by
+  induction chunks generalizing cur with
+  | nil => by_cases h : cur.isEmpty <;> simp_all [runs]
+  | cons c r ih =>
+    by_cases hin : inSet set c
+    · by_cases h : cur.isEmpty <;> simp_all [runs]
+    · simp [runs, hin, ih, List.append_assoc]
+
+/-- every segment is non-empty -/
+theorem runs_nonempty (set : Bytes) (chunks : List Bytes) (hne : ∀ c ∈ chunks, c ≠ []) (cur : Bytes) :
+    ∀ s ∈ runs set cur chunks, s ≠ [] := by
+  induction chunks generalizing cur with
+  | nil =>
+    intro s hs
+    by_cases h : cur.isEmpty
+    · simp [runs, h] at hs
+    · simp [runs, h] at hs; subst hs; simpa using h
+  | cons c r ih =>
+    intro s hs
+    have hr : ∀ x ∈ r, x ≠ [] := fun x hx => hne x (by simp [hx])
+    by_cases hin : inSet set c
+    · by_cases h : cur.isEmpty
+      · simp only [runs, hin, h, if_true] at hs; exact ih hr [] s hs
+      · simp only [runs, hin, h, if_true, Bool.false_eq_true, if_false, List.mem_cons] at hs
+        rcases hs with e | e
+        · subst e; simpa using h
+        · exact ih hr [] s e
+    · simp only [runs, hin, Bool.false_eq_true, if_false] at hs
+      exact ih hr (cur ++ c) s hs
+
+
+/-- the hypothesis is met by ordinary text: "a b" with the set " " -/
+example : (∀ c ∈ [[97], [32], [98]], ValidChunk c) ∧
+    readAll (readStrip [32]) 4 [97, 32, 98] = [[97], [98]] := by
+  refine ⟨?_, by decide⟩
+  intro c hc
+  simp only [List.mem_cons, List.not_mem_nil, or_false] at hc
+  rcases hc with rfl | rfl | rfl <;> exact ⟨_, _, rfl, by decide⟩
+
 end Gpc.FileIO
